@@ -78,7 +78,13 @@ pub fn run(ctx: &Ctx) {
         // thorough: one history in five is long (45 generations cross the 8 KiB mark from an empty file)
         let nsteps = if ctx.tier == crate::ctx::Tier::Thorough && h % 5 == 4 { 45 } else { 1 + (h / states.len()) % 6 };
         let pw_pool = ["", "simple", "p\u{e4}ss w\u{f6}rd \u{2713}", "a much longer password with spaces and symbols !@#$%^&*()", "simple"];
-        let steps: Vec<Step> = (0..nsteps).map(|i| Step { name: format!("gen-{}-{} {}", h, i, ["x", "y z", "\u{e9}"][i % 3]), password: pw_pool[(h + i) % pw_pool.len()].to_string() }).collect();
+        let steps: Vec<Step> = (0..nsteps)
+            .map(|i| {
+                // one step in four uses a name of exactly 128 bytes (64 two-byte characters, unique per step)
+                let name = if (h + i) % 4 == 3 { format!("{}{:03}{:03}", "\u{e9}".repeat(61), h % 1000, i) } else { format!("gen-{}-{} {}", h, i, ["x", "y z", "\u{e9}"][i % 3]) };
+                Step { name, password: pw_pool[(h + i) % pw_pool.len()].to_string() }
+            })
+            .collect();
         // (name, password) of every private key that must be usable
         let mut expect: Vec<(String, Option<String>)> = init_ids.iter().map(|i| (i.name.clone(), if init.as_ref().map(|t| t.contains(&i.locked)).unwrap_or(false) { Some(i.password.clone()) } else { None })).collect();
         let extra_initial_sections = init.as_ref().map(|t| ref_parse(t).len()).unwrap_or(0) - init_ids.len();
